@@ -29,11 +29,8 @@ func (js *jsonBodyProcessor) ProcessRequest(reader io.Reader, v plugintypes.Tran
 	ss := s.String()
 	// Process with recursion limit
 	col := v.ArgsPost()
-	data, err := readJSON(ss, bpo.RequestBodyRecursionLimit)
 	// The collection is populated before checking the error to still perform a best effort inspection of the payload
-	for key, value := range data {
-		col.SetIndex(key, 0, value)
-	}
+	err := flattenJSON(ss, bpo.RequestBodyRecursionLimit, col.Add)
 	if err != nil {
 		return err
 	}
@@ -59,11 +56,8 @@ func (js *jsonBodyProcessor) ProcessResponse(reader io.Reader, v plugintypes.Tra
 	ss := s.String()
 	// Process with no recursion limit as we don't have a directive for response body
 	col := v.ResponseArgs()
-	data, err := readJSON(ss, ignoreJSONRecursionLimit)
 	// The collection is populated before checking the error to still perform a best effort inspection of the payload
-	for key, value := range data {
-		col.SetIndex(key, 0, value)
-	}
+	err := flattenJSON(ss, ignoreJSONRecursionLimit, col.Add)
 	if err != nil {
 		return err
 	}
@@ -80,17 +74,25 @@ func (js *jsonBodyProcessor) ProcessResponse(reader io.Reader, v plugintypes.Tra
 
 func readJSON(s string, maxRecursion int) (map[string]string, error) {
 	res := make(map[string]string)
+	err := flattenJSON(s, maxRecursion, func(key, value string) { res[key] = value })
+	return res, err
+}
+
+// flattenJSON calls add for every flattened (key, value) pair of s in document order. A member
+// name that occurs more than once in an object yields one pair per occurrence, so that no value
+// is hidden behind another one.
+func flattenJSON(s string, maxRecursion int, add func(key, value string)) error {
 	key := []byte("json")
 
 	json := gjson.Parse(s)
-	err := readItems(json, key, maxRecursion, res)
+	err := walkItems(json, key, maxRecursion, add)
 	if err != nil {
-		return res, err
+		return err
 	}
 	if !gjson.Valid(s) {
-		return res, errors.New("invalid JSON")
+		return errors.New("invalid JSON")
 	}
-	return res, nil
+	return nil
 }
 
 // Transform JSON to a map[string]string
@@ -101,6 +103,10 @@ func readJSON(s string, maxRecursion int) (map[string]string, error) {
 // Example input: [{"data": {"name": "John", "age": 30}, "items": [1,2,3]}]
 // Example output: map[string]string{"json.0.data.name": "John", "json.0.data.age": "30", "json.0.items.0": "1", "json.0.items.1": "2", "json.0.items.2": "3"}
 func readItems(json gjson.Result, objKey []byte, maxRecursion int, res map[string]string) error {
+	return walkItems(json, objKey, maxRecursion, func(key, value string) { res[key] = value })
+}
+
+func walkItems(json gjson.Result, objKey []byte, maxRecursion int, add func(key, value string)) error {
 	arrayLen := 0
 	var iterationError error
 	if maxRecursion == 0 {
@@ -123,7 +129,7 @@ func readItems(json gjson.Result, objKey []byte, maxRecursion int, res map[strin
 		switch value.Type {
 		case gjson.JSON:
 			// call recursively with one less item to avoid doing infinite recursion
-			iterationError = readItems(value, objKey, maxRecursion-1, res)
+			iterationError = walkItems(value, objKey, maxRecursion-1, add)
 			if iterationError != nil {
 				return false
 			}
@@ -138,13 +144,13 @@ func readItems(json gjson.Result, objKey []byte, maxRecursion int, res map[strin
 			val = value.Raw
 		}
 
-		res[string(objKey)] = val
+		add(string(objKey), val)
 		objKey = objKey[:prevParentLength]
 
 		return true
 	})
 	if arrayLen > 0 {
-		res[string(objKey)] = strconv.Itoa(arrayLen)
+		add(string(objKey), strconv.Itoa(arrayLen))
 	}
 	return iterationError
 }
